@@ -7,12 +7,21 @@
    * it fails only when the volume really has fewer free blocks than requested (C04_scan_complete), and
      succeeds whenever enough are free (C04_scan_succeeds): after entries are deleted the freed space can be
      allocated again to the same capacity.
-  NOT proved (MANIFEST): that every caller's failure branch leaves the abstract state unchanged; the exhaustion
-  profiles of tools/props/C08.py judge that on the real code.
+   * the callers that create entries: `adfCreateEntry`, `adfCreateDir` and `adfCreateFile` on a volume whose scan finds
+     no free block fail with NO device write and the library's memory (bitmap, free count) unchanged — for every
+     directory and chain content on the disk, every flavour and every fault schedule; "no free block" is exactly
+     "no block of the volume is marked free" (`C08_volfull_iff_no_free_block`).
+   * the data-write path: `adfFileCreateNextBlock` on a full volume fails at each of its three allocation sites with no
+     device write, bitmap and handle (header copy, position, buffer) unchanged, and the write loop standing at end of file
+     on a block boundary returns exactly the count stored so far.
+  NOT proved (MANIFEST): that the bytes counted as stored are the bytes later read back (whole-history refinement), the
+  exhaustion inside directory-cache growth, and the refill to the same capacity over a history; the exhaustion profiles of
+  tools/props/C08.py judge those on the real code.
 -/
 import AdfProofs.BitmapLemmas
 import AdfProofs.ProgLemmas
 import AdfProps.C04
+import AdfProofs.ExhaustLemmas
 namespace Adf.C08
 open Adf
 
@@ -58,5 +67,59 @@ theorem C08_serves_when_possible (tbl : List Blk) (root last nb : Nat) (hroot : 
 
 /-- witness: the 40-block table of C04 has 36 free blocks: 36 can be had, 37 cannot -/
 example : (scanFree C04.smallTbl 20 39 41 20 36).length = 36 ∧ (scanFree C04.smallTbl 20 39 41 20 37).length ≠ 37 := by decide
+
+/-- "the scan finds nothing" is exactly "no block of the volume is marked free" -/
+theorem C08_volfull_iff_no_free_block (tbl : List Blk) (root last : Nat) (hroot : 2 < root) (hr : root ≤ last) :
+    (scanFree tbl root last (last + 2) root 1).length ≠ 1 ↔ ((circ root last).filter (bmIsFree tbl)).length = 0 := by
+  constructor
+  · intro h; have := C08_fails_only_when_full tbl root last 1 hroot hr h; omega
+  · intro h hs
+    rw [scanFree_eq, scanSeq_full root last (last + 2) hroot hr (by omega), List.length_take] at hs
+    omega
+
+/-- creating an entry on a full volume: refused, nothing written, memory (bitmap included) unchanged -/
+theorem C08_create_entry_full_changes_nothing (c : Cfg) (v : Nat) (dir : Blk) (name : Bytes) (s : St)
+    (hfull : VolFull c v s.mem) :
+    Post AnyFault c (createEntry v dir name) s (fun r s' => r = (none, dir) ∧ Untouched s s') :=
+  createEntry_full_refused c v dir name s hfull
+
+theorem C08_create_dir_full_changes_nothing (c : Cfg) (v nParent : Nat) (name : Bytes) (s : St)
+    (hfull : VolFull c v s.mem) :
+    Post AnyFault c (createDir v nParent name) s (fun rc s' => rc ≠ rcOK ∧ Untouched s s') :=
+  createDir_full_refused c v nParent name s hfull
+
+theorem C08_create_file_full_changes_nothing (c : Cfg) (v nParent : Nat) (name : Bytes) (s : St)
+    (hfull : VolFull c v s.mem) :
+    Post AnyFault c (createFile v nParent name) s (fun r s' => r.1 ≠ rcOK ∧ Untouched s s') :=
+  createFile_full_refused c v nParent name s hfull
+
+/-- with no free block a request for two blocks fails too -/
+theorem C08_full_means_no_pair (c : Cfg) (v : Nat) (m : Mem) (hroot : 2 < (c.vol v).rootBlock)
+    (hr : (c.vol v).rootBlock ≤ (c.vol v).lastBlock - (c.vol v).firstBlock) (h : VolFull c v m) : VolFull2 c v m := by
+  unfold VolFull at h; unfold VolFull2
+  have h0 := (C08_volfull_iff_no_free_block _ _ _ hroot hr).mp h
+  intro hs
+  rw [scanFree_eq, scanSeq_full _ _ _ hroot hr (by omega), List.length_take] at hs
+  omega
+
+/-- **the write path on a full volume** (`adfFileCreateNextBlock`, all three allocation sites — data block listed in the
+    header, extension block + data block, data block listed in an extension block): the call fails, no write reaches the
+    device, bitmap and memory are unchanged, and the handle's header copy, position and data buffer are kept -/
+theorem C08_next_block_full_changes_nothing (c : Cfg) (h : FileH) (s : St) (hroot : 2 < (c.vol h.vol).rootBlock)
+    (hr : (c.vol h.vol).rootBlock ≤ (c.vol h.vol).lastBlock - (c.vol h.vol).firstBlock) (hfull : VolFull c h.vol s.mem) :
+    Post AnyFault c (fileCreateNextBlock h) s (fun r s' => r.1 ≠ rcOK ∧ Untouched s s' ∧ KeptW h r.2) :=
+  fileCreateNextBlock_full c h s hfull (C08_full_means_no_pair c h.vol s.mem hroot hr hfull)
+
+/-- **short count**: `adfFileWrite`'s loop, standing at end of file on a block boundary of a full volume, returns exactly
+    the count stored so far and changes nothing -/
+theorem C08_write_loop_full_short_count (c : Cfg) (dbs doff fuel : Nat) (h : FileH) (buf : Bytes) (written : Nat) (s : St)
+    (hroot : 2 < (c.vol h.vol).rootBlock)
+    (hr : (c.vol h.vol).rootBlock ≤ (c.vol h.vol).lastBlock - (c.vol h.vol).firstBlock) (hfull : VolFull c h.vol s.mem)
+    (hb : h.pos % dbs = 0) (he : h.pos = h.byteSize) :
+    Post AnyFault c (fileWriteLoop dbs doff fuel h buf written) s (fun r s' => r.1 = written ∧ Untouched s s' ∧ KeptW h r.2) :=
+  fileWriteLoop_full_at_boundary c dbs doff fuel h buf written s hfull (C08_full_means_no_pair c h.vol s.mem hroot hr hfull) hb he
+
+/-- witness for `VolFull`: a 40-block table with every bit clear has no free block -/
+example : (scanFree [List.replicate 128 0] 20 39 41 20 1).length ≠ 1 := by decide
 
 end Adf.C08
